@@ -14,6 +14,11 @@ a list of boxes is joined by `;`, the empty list is `.`.  Keys of a box must be 
   `C30 feed <chunk> <chunk> …`           raw chunks into a fresh receiver → `recv=<boxes> closed=<0|1>`
   `C30 enc <ty> <value tokens…>`         → hex of `toString(value)` or `!raised <Exc>`
   `C30 dec <ty> <hex>`                   → value tokens of `fromString(bytes)` or `!raised <Exc>`
+  `C30 seq <ty> <step> | <step> | …`     ONE Argument object of type `<ty>` used for a history of steps
+                                         (`enc <value tokens…>`, `dec <hex>`, `rt <value tokens…>` = toString then
+                                         fromString of the result by the same object); the model is a pure function,
+                                         so every step is answered as if it were the first
+                                         → the step results joined by ` | ` (`rt`: `<hex> => <value tokens>`)
   `C30 unmodelled`                       → `unmodelled` (argument types covered by the oracle only)
 Types: `int str uni bool dec dt L<ty> A(<namehex><?|!><ty>,…)` (AmpList schema; `?` = optional argument).
 Values: `i<decimal>`, `s<hex>`, `u<cp>,<cp>…` (`u` alone = empty), `b0`/`b1`,
@@ -252,9 +257,48 @@ def showRow : (s : Schema) → DRow s → List String
   | .cons _ false t s, (v, r) => showVal t v ++ showRow s r
 end
 
+/-- split a token list at the `|` tokens -/
+def splitBar : List String → List (List String)
+  | [] => [[]]
+  | tok :: rest =>
+    match splitBar rest with
+    | [] => [[tok]]
+    | g :: gs => if tok = "|" then [] :: g :: gs else (tok :: g) :: gs
+
+def showDec (t : Ty) (s : Bytes) : String :=
+  match Twisted.Amp.Args.fromString drvCodec t s with
+  | .ok v => " ".intercalate (showVal t v)
+  | .error e => "!raised " ++ argErrName e
+
+/-- one step of a `seq` history -/
+def stepOut (t : Ty) : List String → String
+  | "enc" :: toks =>
+    match parseVal t toks with
+    | some (v, []) => match Twisted.Amp.Args.toString drvCodec t v with
+      | .ok w => encHexTok w
+      | .error e => "!raised " ++ argErrName e
+    | _ => "bad-op"
+  | ["dec", h] =>
+    match decHexTok h with
+    | some s => showDec t s
+    | none => "bad-op"
+  | "rt" :: toks =>
+    match parseVal t toks with
+    | some (v, []) => match Twisted.Amp.Args.toString drvCodec t v with
+      | .ok w => encHexTok w ++ " => " ++ showDec t w
+      | .error e => "!raised " ++ argErrName e
+    | _ => "bad-op"
+  | _ => "bad-op"
+
 def handle (args : List String) : String :=
   match args with
   | ["unmodelled"] => "unmodelled"
+  | "seq" :: ty :: rest =>
+    match decTy ty with
+    | some t =>
+      let outs := (splitBar rest).map (stepOut t)
+      if outs.any (· == "bad-op") then "bad-op" else " | ".intercalate outs
+    | none => "bad-op"
   | ["serialize", b] =>
     match decBox b with
     | some b => match serialize b with
